@@ -425,6 +425,11 @@ func CheckC16(k *sim.Kernel, rr *RelayRun, hls *HlsTracker) {
 		if !c.Joined || c.Left || c.Kicked || c.Stalled || (c.Rtmp == nil && (c.Http == nil || (c.Plan.Proto != "flv" && c.Plan.Proto != "wsflv"))) {
 			continue
 		}
+		if c.ClosedByLal() {
+			// a player that is fed nothing for two liveness sweeps (the gap between the incarnations can be minutes) is
+			// swept: it is gone by the time the audio-only publisher arrives, which is not what this rule is about
+			continue
+		}
 		joinSent, joinDone := c.JoinSentStep(), c.JoinDoneStep()
 		if joinSent < 0 || joinDone < 0 {
 			continue
